@@ -50,7 +50,8 @@ def cases(draw):
     heavy = rational or variant.startswith("weight")
     # rational comparison multiplies numerators and denominators exactly: keep those cases small
     if heavy:
-        c = draw(gen.curves(0, 2, 2, rational=rational, nums=("frac",), dim=draw(st.sampled_from([0, 0, 2]))))
+        c = draw(gen.curves(0, 2, draw(st.sampled_from([0, 1, 1, 2])), rational=rational, nums=("frac",),
+                            dim=draw(st.sampled_from([0, 0, 2]))))
     else:
         c = draw(gen.curves(0, 3, 3, rational=rational, nums=("frac",)))
     n = len(c["P"])
@@ -69,7 +70,7 @@ def cases(draw):
                 other["P"] = other["P"] + [other["P"][-1]]
     return {
         "A": c, "variant": variant, "other": other,
-        "refB": draw(refinement(c["U"], c["p"], 2, 1) if heavy else refinement(c["U"], c["p"])),
+        "refB": draw(refinement(c["U"], c["p"], 1, 1) if heavy else refinement(c["U"], c["p"])),
         "refA": draw(st.one_of(st.none(), st.none(), st.none() if heavy else refinement(c["U"], c["p"], 2, 1))),
         "index": draw(st.integers(0, n - 1)),
         "delta": draw(st.sampled_from([F(1, 10 ** 12), F(1, 1000), F(1), F(-1, 100)])),
@@ -229,5 +230,5 @@ def check(case, out):
 
 
 FACETS = [
-    Facet("exact", lambda tier: cases(), check, quick=700, thorough=12000, rule="Fraction data"),
+    Facet("exact", lambda tier: cases(), check, quick=1100, thorough=12000, rule="Fraction data", case_timeout=60),
 ]
